@@ -64,3 +64,34 @@ def run(ctx: Ctx):
             kind = "failing-input" if d.get("what") == "Z" else "tie-broken"
             ctx.violation(kind, "vertical", trk.small(c), dict(d, theorem="Ladim.C15.reflect_spec (reflecting boundaries at the surface and at the depth of the start cell)"),
                           tags=dict(first=d.get("what")))
+
+    # ---- whole simulations that move particles in the vertical only, over a bottom of varying depth, while the
+    # population turns over (a death and a release in the same step leave the particle count unchanged): each particle
+    # is reflected at the bottom of its own cell
+    from harness import scen
+    ne = 30 if ctx.thorough else 8
+    ecases = []
+    for k in range(ne):
+        sc = scen.gen(ctx.seed * 100000 + 15500 + k, scheme="", vertadv=True, kills=False, land=False, continuous=False, layout="sparse", rev=False,
+                      nsteps=8, period=1, numrec=0, subgrid="none", scalars=bool(k % 2))
+        h = np.array(sc["h"])
+        # three cells of different depth
+        cells = []
+        for j in range(2, sc["jmax"] - 2):
+            for i in range(2, sc["imax"] - 2):
+                if all(h[j, i] != h[jj, ii] for jj, ii in cells):
+                    cells.append((j, i))
+                if len(cells) == 3:
+                    break
+            if len(cells) == 3:
+                break
+        if len(cells) < 3:
+            continue
+        W = np.array(sc["W"]); W[...] = 3.0 / scen.DT          # sinking, 3 m per step
+        sc["W"] = W.tolist()
+        r0 = dict(sc["rows"][0])
+        mk = lambda c, step: dict(r0, step=step, mult=1, X=float(c[1]), Y=float(c[0]), Z=float(h[c]) - 2.0)   # noqa: E731
+        sc["rows"] = [mk(cells[0], 0), mk(cells[1], 0), mk(cells[2], 2), mk(cells[0], 4)]
+        sc["kill"] = {"1": [0], "3": [1]}       # dies during step 1 / 3, replaced by the release of step 2 / 4
+        ecases.append(sc)
+    scen.e2e_stream(ctx, "whole-run-vertical", ecases, "Ladim.C15.depth_in_column (reflection at the depth of the particle's own cell, every step)")
